@@ -555,6 +555,18 @@ fn run_program_inner(c: &Case, sx: &mut Sx, dump: &mut Vec<Option<(usize, usize,
                         return fail(step, op, "metadata-changed-on-error", format!("in-place operation failed but the metadata went from {before:?} to {:?}", me.ct.meta()));
                     }
                     // compaction = "the minimum limb count that still preserves the metadata"; a successful reallocation gives the requested count
+                    if r.is_ok() && k9 == 7 {
+                        // the copying form must agree with the in-place one
+                        match md.ckks_compact_limbs_copy(&me.ct) {
+                            Ok(cp) => {
+                                use poulpy_hal::layouts::ZnxView;
+                                if cp.size() != me.ct.size() || cp.meta() != me.ct.meta() || cp.data().raw() != me.ct.data().raw() {
+                                    return fail(step, op, "compact-copy-differs", format!("ckks_compact_limbs_copy of the compacted ciphertext has {} limbs / meta {:?}, the in-place form {} limbs / meta {:?} (or other digits)", cp.size(), cp.meta(), me.ct.size(), me.ct.meta()));
+                                }
+                            }
+                            Err(e) => return fail(step, op, "compact-copy-error", format!("ckks_compact_limbs_copy failed on a ciphertext the in-place form accepted: {e}")),
+                        }
+                    }
                     if r.is_ok() && k9 == 7 && me.ct.size() != sa.eff().div_ceil(b) {
                         return fail(step, op, "compacted-size-not-minimal", format!("ckks_compact_limbs left {} limbs for log_delta + log_budget = {} bits at base2k = {b} (minimum {})", me.ct.size(), sa.eff(), sa.eff().div_ceil(b)));
                     }
@@ -610,7 +622,8 @@ fn run_program_inner(c: &Case, sx: &mut Sx, dump: &mut Vec<Option<(usize, usize,
                 let ptlb = (ptlb as usize).clamp(3, 10);
                 let prec = CKKSMeta { log_delta: ptld, log_budget: ptlb };
                 let pt_max_k = (ptld + ptlb).next_multiple_of(b);
-                let k5 = kind % 5;
+                // kind: 0 add vector, 1 sub vector, 2 mul vector, 3 add constant, 4 mul constant, 5 sub constant
+                let k5 = kind % 6;
                 let (pre, pim) = gen_slots(m, p2((seed % 3) as i64) * 0.9, seed);
                 // quantised plaintext values (what the encoder + to_znx produce, up to N/2 * 2^-ptld)
                 // constant forms: (re, im), re only, im only, neither
@@ -624,7 +637,7 @@ fn run_program_inner(c: &Case, sx: &mut Sx, dump: &mut Vec<Option<(usize, usize,
                 let mut res_sh: Option<Shadow> = None;
                 let qerr = nf * p2(-(ptld as i64));
                 match k5 {
-                    0 | 1 | 3 => {
+                    0 | 1 | 3 | 5 => {
                         let off = if assign { 0 } else { sa.eff().saturating_sub(cap) };
                         match sa.lb.checked_sub(off) {
                             None => pred = Pred::Err("InsufficientHomomorphicCapacity"),
@@ -633,8 +646,9 @@ fn run_program_inner(c: &Case, sx: &mut Sx, dump: &mut Vec<Option<(usize, usize,
                                     pred = Pred::Err("PlaintextAlignmentImpossible");
                                 } else {
                                     let sgn = if k5 == 1 { -1.0 } else { 1.0 };
-                                    let (re, im): (Vec<f64>, Vec<f64>) = if k5 == 3 {
-                                        (sa.re.iter().map(|x| x + cre).collect(), sa.im.iter().map(|x| x + cim.unwrap_or(0.0)).collect())
+                                    let (re, im): (Vec<f64>, Vec<f64>) = if k5 == 3 || k5 == 5 {
+                                        let sc = if k5 == 5 { -1.0 } else { 1.0 };
+                                        (sa.re.iter().map(|x| x + sc * cre).collect(), sa.im.iter().map(|x| x + sc * cim.unwrap_or(0.0)).collect())
                                     } else {
                                         ((0..m).map(|i| sa.re[i] + sgn * pre[i]).collect(), (0..m).map(|i| sa.im[i] + sgn * pim[i]).collect())
                                     };
@@ -687,6 +701,7 @@ fn run_program_inner(c: &Case, sx: &mut Sx, dump: &mut Vec<Option<(usize, usize,
                         1 => md.ckks_sub_pt_vec_rnx_tmp_bytes(&me.ct, &me.ct, &prec),
                         2 => md.ckks_mul_pt_vec_rnx_tmp_bytes(&me.ct, &me.ct, &prec),
                         3 => md.ckks_add_pt_const_tmp_bytes(),
+                        5 => md.ckks_sub_pt_const_tmp_bytes(),
                         _ => md.ckks_mul_pt_const_tmp_bytes(&me.ct, &me.ct, &prec),
                     });
                     let r = match k5 {
@@ -694,6 +709,7 @@ fn run_program_inner(c: &Case, sx: &mut Sx, dump: &mut Vec<Option<(usize, usize,
                         1 => md.ckks_sub_pt_vec_rnx_assign(&mut me.ct, &rnx, prec, sc),
                         2 => md.ckks_mul_pt_vec_rnx_assign(&mut me.ct, &rnx, prec, sc),
                         3 => md.ckks_add_pt_const_rnx_assign(&mut me.ct, &cst, prec, sc),
+                        5 => md.ckks_sub_pt_const_rnx_assign(&mut me.ct, &cst, prec, sc),
                         _ => md.ckks_mul_pt_const_rnx_assign(&mut me.ct, &cst, prec, sc),
                     };
                     if r.is_err() && me.ct.meta() != before {
@@ -712,6 +728,7 @@ fn run_program_inner(c: &Case, sx: &mut Sx, dump: &mut Vec<Option<(usize, usize,
                         1 => md.ckks_sub_pt_vec_rnx_tmp_bytes(&ct, &ra.ct, &prec),
                         2 => md.ckks_mul_pt_vec_rnx_tmp_bytes(&ct, &ra.ct, &prec),
                         3 => md.ckks_add_pt_const_tmp_bytes(),
+                        5 => md.ckks_sub_pt_const_tmp_bytes(),
                         _ => md.ckks_mul_pt_const_tmp_bytes(&ct, &ra.ct, &prec),
                     });
                     let r = match k5 {
@@ -719,6 +736,7 @@ fn run_program_inner(c: &Case, sx: &mut Sx, dump: &mut Vec<Option<(usize, usize,
                         1 => md.ckks_sub_pt_vec_rnx_into(&mut ct, &ra.ct, &rnx, prec, sc),
                         2 => md.ckks_mul_pt_vec_rnx_into(&mut ct, &ra.ct, &rnx, prec, sc),
                         3 => md.ckks_add_pt_const_rnx_into(&mut ct, &ra.ct, &cst, prec, sc),
+                        5 => md.ckks_sub_pt_const_rnx_into(&mut ct, &ra.ct, &cst, prec, sc),
                         _ => md.ckks_mul_pt_const_rnx_into(&mut ct, &ra.ct, &cst, prec, sc),
                     };
                     if r.is_ok() {
@@ -728,7 +746,7 @@ fn run_program_inner(c: &Case, sx: &mut Sx, dump: &mut Vec<Option<(usize, usize,
                     }
                     got = Some(r);
                 }
-                classes.push(["add_pt_vec", "sub_pt_vec", "mul_pt_vec", "add_pt_const", "mul_pt_const"][k5 as usize]);
+                classes.push(["add_pt_vec", "sub_pt_vec", "mul_pt_vec", "add_pt_const", "mul_pt_const", "sub_pt_const"][k5 as usize]);
             }
             Op::Align { a, b: rb } => {
                 if a as usize % 4 == rb as usize % 4 {
